@@ -4,8 +4,6 @@ import (
 	"fmt"
 	"os"
 
-	"golang.org/x/tools/go/ssa"
-
 	"wrverif/core"
 )
 
@@ -14,16 +12,15 @@ func main() {
 	if err != nil {
 		panic(err)
 	}
-	for _, fn := range p.ModFuncs {
-		core.Instrs(fn, func(in ssa.Instruction) {
-			sl, ok := in.(*ssa.Slice)
-			if !ok || sl.High == nil {
-				return
+	for _, pkg := range []string{"html/layout", "html/boxes", "html/document", "svg", "images", "text", "text/draw"} {
+		as := p.SideAssigns(pkg, nil)
+		bad := 0
+		for _, a := range as {
+			if !a.Consistent {
+				bad++
+				fmt.Println("SIDEASSIGN", pkg, p.Pos(a.Pos), a.Func, a.Text)
 			}
-			if k, isK := core.ConstInt(sl.High); !isK || k != 0 {
-				return
-			}
-			fmt.Println("RESET", p.Pos(sl.Pos()), core.FuncName(fn), sl.X.Name(), sl.X.String())
-		})
+		}
+		fmt.Println(pkg, len(as), bad)
 	}
 }
